@@ -71,7 +71,9 @@ class DUCCIO():
         # initialize final strengths on first call, if not done explicitly at construction
         with torch.no_grad():
             if self.final_strengths is None:
-                self.final_strengths = tuple(torch.maximum(torch.tensor(0.0), self.task_loss / (model.get_cost(n) - t)) for n, t in self.targets.items())
+                excess = tuple(model.get_cost(n) - t for n, t in self.targets.items())
+                # a metric already within its target gets strength 0 (task_loss / 0 would be inf, and inf * 0 = NaN)
+                self.final_strengths = tuple(torch.where(x > 0, self.task_loss / x, torch.zeros_like(x)) for x in excess)
 
         cost = torch.tensor(0.0)
         for (cost_name, target), strength in zip(self.targets.items(), self.final_strengths):
